@@ -102,6 +102,8 @@ class Exec:
             return False
         if kind in ('job', 'sched', 'seq') and op['name'] in self.objs:
             return False
+        if kind == 'chain':
+            return op['sched'] in self.objs
         return True
 
     # ------------------------------------------------------------ state
@@ -362,6 +364,22 @@ class Exec:
             self.model.remove(op['sched'], op['job'])
         self._construct(prop, idx, op, lib, mod, 'remove', '-')
 
+    def do_chain(self, prop, idx, op):
+        names = op['names']
+        if any(n in self.objs for n in names):
+            return
+        sched = self.objs[op['sched']]
+        jobs = []
+        for name in names:
+            self.model.kind[name] = 'job'
+            self.model.forever[name] = False
+            job = SimJob(self.ctx, _jobspec(name, False, self.case['salt']),
+                         forever=False, critical=False)
+            self.objs[name] = job
+            jobs.append(job)
+        Sequence(*jobs, scheduler=sched)
+        self.log.append((idx, 'chain', 'ok'))
+
     # ---- C16
     def do_sanitize(self, prop, idx, op):
         sched = op['sched']
@@ -370,7 +388,10 @@ class Exec:
         dangling = self._has_dangling(sched)
         nested = any(m.kind[j] == 'sched' for j in m.members[sched])
         want = m.sanitize(sched)
-        got, exc = self._call(self.objs[sched].sanitize)
+        if op.get('verbose'):
+            got, exc = self._call(lambda: self.objs[sched].sanitize(True))
+        else:
+            got, exc = self._call(self.objs[sched].sanitize)
         self.log.append((idx, 'sanitize', repr(got)))
         if prop != 'C16':
             return
@@ -516,7 +537,19 @@ class Exec:
         if not want:
             self.stats['cyclic_graphs'] = \
                 self.stats.get('cyclic_graphs', 0) + 1
-        got, exc = self._call(obj.check_cycles)
+        # a scan whose depth grows with the graph must not be mistaken for a
+        # cycle: the interpreter's recursion limit is lowered (a chain of ~50
+        # jobs here stands for one of ~1000 jobs under the default limit)
+        import sys
+        old_limit = sys.getrecursionlimit()
+        depth, frame = 0, sys._getframe()
+        while frame is not None:
+            depth, frame = depth + 1, frame.f_back
+        sys.setrecursionlimit(depth + 45)
+        try:
+            got, exc = self._call(obj.check_cycles)
+        finally:
+            sys.setrecursionlimit(old_limit)
         if exc is not None:
             self.bad('C15', 'check_cycles-raises', site, repr(exc), idx)
         elif got is not want:
